@@ -38,7 +38,7 @@ CHECKS = {
             "All command classes over their parameter domains (512 property subsets, every property value, both capability pages, states), public operations under several capability profiles (also against additive-check devices with junk/corrupted/missing/duplicated replies and with two clients at once), deferred serialisation, and mixed sequences spanning many id wrap-arounds.",
             "Trusts mv/ref/acframe.py (bitwise CRC-8/MAXIM) and the reference device's command grammar in mv/simdev.py.", "DESIGN.md section 2 C12"),
     "C13": ("fault_enumeration", "single-byte fault enumeration on valid response frames with an independent validity predicate; state-diff and online/supported oracle after refresh()/get_capabilities()",
-            "Every byte position after the start byte x substitute values (51 sampled in quick, all 255 in thorough) x {plain, outer checksum recomputed} for state, capabilities, properties, energy and humidity responses; in half of the cases another client object accepts the genuine frame first.",
+            "Every byte position after the start byte x substitute values (29 sampled in quick, all 255 in thorough; one frame or 2-5 copies per exchange; refresh, get_capabilities and toggle_display) x {plain, outer checksum recomputed} for state, capabilities, properties, energy and humidity responses; in half of the cases another client object accepts the genuine frame first.",
             "Validity as defined in the statement's first sentence; corruptions that still satisfy it (other body check matches, property-response exemption) are skipped and counted.", "DESIGN.md section 2 C13"),
     "C14": ("fault_enumeration", "containment monitor: no exception may escape five public operations fed enumerated malformed-but-checksum-valid responses; good-frame-applied oracle on mixed exchanges",
             "All body/raw truncation lengths of every response kind, count/size bytes 0..255, records pointing past the end, every property/capability value, ids 0..255 x 6 frame types, random bodies, mixes of good and bad frames (state, one- and two-page capability replies with unsolicited 0xB5 frames, property reports), one-record capability profiles with every value followed by unusual state reports.",
